@@ -161,6 +161,19 @@ def h_response(c):
     return {"pdat": enc(numpy.asarray(r["pdat"], dtype=complex)), "model": list(r["model"])}
 
 
+def h_response_ipoly(c):
+    """the identity part of the library's own algebra element of the phases, evaluated by the library at w = e^{i arccos a},
+    next to the Wz/z response at the same points"""
+    from pyqsp.response import ComputeQSPResponse
+    from pyqsp.LPoly import LAlg
+    adat = numpy.array(dec(c["adat"]), dtype=float)
+    phis = numpy.array(dec(c["phases"]), dtype=float)
+    g = LAlg.unitary_from_angles(phis)
+    vals = numpy.asarray(g.IPoly.eval(numpy.arccos(adat)), dtype=complex)
+    r = ComputeQSPResponse(adat, phis, signal_operator="Wz", measurement="z")
+    return {"ipoly": enc(vals), "pdat": enc(numpy.asarray(r["pdat"], dtype=complex))}
+
+
 def h_bifurc(c):
     """input generation only: members of the C03 real family close to a collision of two real
     roots of 1 - F*~F (a root pair just on / just off the real axis).  Returns monomial
@@ -225,7 +238,7 @@ def h_bifurc(c):
 
 
 HANDLERS = {"qspp": h_qspp, "c03_bifurc": h_bifurc, "angle_sequence": h_angle_sequence, "completion": h_completion,
-            "roundtrip": h_roundtrip, "response": h_response}
+            "roundtrip": h_roundtrip, "response": h_response, "response_ipoly": h_response_ipoly}
 
 try:
     import impl_handlers3
